@@ -4,6 +4,7 @@ import (
 	"fmt"
 	"math"
 	"sort"
+	"strconv"
 	"strings"
 )
 
@@ -140,12 +141,15 @@ func (l Lin) Coef(a *Atom) int64 {
 }
 
 func (l Lin) Key() string {
-	var b strings.Builder
-	fmt.Fprintf(&b, "%d", l.C)
+	buf := make([]byte, 0, 8+12*len(l.Ts))
+	buf = strconv.AppendInt(buf, l.C, 10)
 	for _, t := range l.Ts {
-		fmt.Fprintf(&b, "%+d*a%d", t.Coef, t.A.ID)
+		buf = append(buf, ' ')
+		buf = strconv.AppendInt(buf, t.Coef, 10)
+		buf = append(buf, '*')
+		buf = strconv.AppendInt(buf, int64(t.A.ID), 10)
 	}
-	return b.String()
+	return string(buf)
 }
 
 // String renders with atom descriptions (diagnostics).
@@ -408,11 +412,14 @@ func abs64(a int64) int64 {
 }
 
 func coefKey(l Lin) string {
-	var b strings.Builder
+	buf := make([]byte, 0, 12*len(l.Ts))
 	for _, t := range l.Ts {
-		fmt.Fprintf(&b, "%+d*a%d", t.Coef, t.A.ID)
+		buf = strconv.AppendInt(buf, t.Coef, 10)
+		buf = append(buf, '*')
+		buf = strconv.AppendInt(buf, int64(t.A.ID), 10)
+		buf = append(buf, ' ')
 	}
-	return b.String()
+	return string(buf)
 }
 
 // ConSet is a conjunction of constraints.
